@@ -347,6 +347,8 @@ class Lowerer:
             return self._ctype_s(m.group(1), None) + ' *'     # arrays only appear decayed (parameters) here
         if q in SUGAR: return SUGAR[q]
         if q in BUILTIN: return BUILTIN[q]
+        m = re.match(r'^(std::)?initializer_list<(.*)>::(const_)?iterator$', q)
+        if m: return self._ctype_s(m.group(2), None) + ' *'
         if q.startswith('std::initializer_list<') or q.startswith('initializer_list<'): return 'struct osmt_ilist'
         if q in ('std::string', 'string', 'std::__cxx11::string') or re.match(r'^(std::)?(__cxx11::)?basic_string<char(, std::char_traits<char>, std::allocator<char>\s*)?>$', q): return 'struct osmt_string'
         for cand in (q, 'opensmt::' + q):
@@ -926,6 +928,26 @@ class Lowerer:
         d = t.get('desugaredQualType')
         if d: return self._strip_cv(d).rstrip('&* ').strip()
         return q
+
+    def e_CXXNewExpr(self, n):
+        # only placement new into existing storage: `new (p) T(args)` constructs *p and yields p
+        if not n.get('isPlacement'): raise Unsupported('non-placement new')
+        inner = n.get('inner', [])
+        if len(inner) < 1: raise Unsupported('placement new without a placement argument')
+        ty = n['type']['qualType']
+        # clang lists the initialiser before the placement argument; tell them apart by type (the placement argument is the void* one)
+        ptrs = [c for c in inner if c.get('type', {}).get('qualType', '').replace('const ', '').strip() in ('void *',)]
+        if len(ptrs) != 1 or len(inner) > 2: raise Unsupported('placement new with unexpected operands')
+        place = ptrs[0]; rest = [c for c in inner if c is not place]; init = rest[0] if rest else None
+        if not ty.rstrip().endswith('*'): raise Unsupported('placement new of ' + ty)
+        elem = ty.rstrip()[:-1].strip()
+        ct = self._ctype_s(elem)
+        pe = '((%s *)%s)' % (ct, self.expr(place))
+        if init is None:
+            return pe
+        if self.is_record_type({'qualType': elem}):
+            return '(%s, %s)' % (self.construct_into(init, '(*%s)' % pe), pe)
+        return '((*%s) = %s, %s)' % (pe, self.expr(init), pe)
 
     def e_CXXConstructExpr(self, n):
         if n.get('elidable') and n.get('inner'):
